@@ -31,6 +31,9 @@ CHECKS = {
  "C13": dict(level="exploration", design="§4 C13",
    text="Cross-process equivalence monitoring of every public API backed by a native routine (parse, validate, skip, search, quote, unquote, HTML escape, UTF-8 validation/correction, number parsing and formatting) between an AVX2 process and a SONIC_MODE=noavx2 process, over SIMD block sweeps (all lengths x positions) and seeded random inputs; transcripts include error positions.",
    technique="cross-process transcript digest diff (AVX2 vs SSE tables) over enumerated block sweeps and seeded inputs"),
+ "C17": dict(level="fault_enumeration", design="§4 C17",
+   text="Stream decoder: for small inputs every single cut, every pair of cuts with an interleaved empty read, EOF-with-data and a reader FAILURE at every byte position (whole and 1-byte reads) are enumerated; large inputs crossing the 4096/8192/16384-byte buffers get sampled chunkings. Oracle: encoding/json.Decoder driven by the very same reader: same value sequence, same terminal class, injected error returned by identity, logical progress (InputOffset strictly increases), and values returned earlier do not change after later Decode calls (three decoder configurations incl. CopyString+UseNumber). Stream encoder: Writer failing at every write index, short writes, repeated Encode; bytes must equal Marshal (+newline).",
+   technique="fault enumeration over reader cut positions and reader/writer failure positions, with encoding/json.Decoder on the same reader as the runtime oracle"),
  "C19": dict(level="exploration", design="§4 C19",
    text="Seeded differential monitoring of every number conversion route (30+ routes per literal: all integer widths, float32/64, json.Number, interface{} under default/UseNumber/UseInt64, string-tagged fields, integer map keys, ast accessors, Interface, Preorder callbacks) against strconv/encoding/json, with math/big-built exact midpoints; formatting of floats/ints byte-for-byte against encoding/json; all 2^32 float32 patterns in the thorough tier (exhaustive for float32 formatting and shortest-text decoding). jit/optdec/vm/sse configurations each get a share.",
    technique="runtime differential monitor vs strconv/encoding/json; exhaustive float32 bit-pattern sweep (thorough); seeded boundary/midpoint literals"),
